@@ -295,6 +295,10 @@ def abs_(a):
     n = _num(a)
     if n is not None:
         return const(abs(n))
+    if a.op == 'const' and a.args[0] in ('nan', 'inf'):
+        return a
+    if a.op == 'const' and a.args[0] == '-inf':
+        return const(float('inf'))
     return T('abs', (a,), a.sort)
 
 
